@@ -22,7 +22,7 @@ fn spec(t: Tier) -> Spec {
     Spec {
         id: "C06",
         level: "exploration",
-        rule: format!("grid: RLIMIT_STACK {:?} x environment {:?} x argument length {:?} x options {:?}; the number of arguments is derived so that the input is >= 2.5x the kernel's budget for that stack limit (max(stack/4, 128 KiB) capped at 6 MiB), i.e. up to several million one-byte arguments, so every grid point crosses the limit at least twice; the real xargs binary runs the recorder child (count + rolling hash per invocation): exit status must be 0, no 'Argument list too long', and the recorder must have seen every argument exactly once in order with the initial arguments first. -I slice: one input line of 10..200000 bytes among short ones substituted into templates with 1..6 occurrences of {{}}: every invocation accepted by exec with exactly the substituted arguments, or the line refused with exit 1 before anything runs with it. Single-argument slice: one argument of 131071 / 131072 / 200000 / 3000000 bytes among short ones: either everything is delivered, or xargs exits 1 with a diagnostic, never starts the recorder with that argument, and what was delivered is a prefix of the input. {}. evaluation = one grid point; non-trivial = run with >= 2 invocations", STACKS.iter().map(|s| s.0).collect::<Vec<_>>(), ENVS, LENS, OPTS, t.pick("quick: 2 stack limits x 2 environments x 4 lengths x 2 options + 5 extra points (-s with 1- and 2-byte arguments, large stack limits)", "thorough: the full grid")),
+        rule: format!("grid: RLIMIT_STACK {:?} x environment {:?} x argument length {:?} x options {:?}; the number of arguments is derived so that the input is >= 2.5x the kernel's budget for that stack limit (max(stack/4, 128 KiB) capped at 6 MiB), i.e. up to several million one-byte arguments, so every grid point crosses the limit at least twice; the real xargs binary runs the recorder child (count + rolling hash per invocation): exit status must be 0, no 'Argument list too long', and the recorder must have seen every argument exactly once in order with the initial arguments first. -I slice: one input line of 10..200000 bytes among short ones substituted into templates with 1..6 occurrences of {{}}: every invocation accepted by exec with exactly the substituted arguments, or the line refused with exit 1 before anything runs with it. Single-argument slice: one argument of 131071 / 131072 / 200000 / 3000000 bytes among short ones: either everything is delivered, or xargs exits 1 with a diagnostic, never starts the recorder with that argument, and what was delivered is a prefix of the input. {}. evaluation = one grid point; non-trivial = run with >= 2 invocations", STACKS.iter().map(|s| s.0).collect::<Vec<_>>(), ENVS, LENS, OPTS, t.pick("three points with only the SOFT stack limit lowered (the hard limit left alone); quick: 2 stack limits x 2 environments x 4 lengths x 2 options + 5 extra points (-s with 1- and 2-byte arguments, large stack limits)", "thorough: the full grid")),
         bound: json!({"stacks": STACKS.iter().map(|s| s.0).collect::<Vec<_>>(), "envs": ENVS, "lengths": LENS, "options": OPTS, "budgets_crossed": 2.5}),
         assumptions: vec!["Linux execve accounting (strings + pointers against max(stack/4,128KiB) capped at 6 MiB; 128 KiB per string) is what the kernel of this sandbox enforces; it is observed, not modelled: only the derived argument count uses the formula".into()],
         shards: 0,
@@ -68,6 +68,8 @@ struct Point<'a> {
     /// Some((position, length)) = single-argument slice: one big argument at that index
     big: Option<(usize, usize)>,
     nargs_override: Option<usize>,
+    /// only the soft stack limit is lowered (the hard one stays where it is)
+    soft_only: bool,
 }
 
 fn run_point(ctx: &mut Ctx, p: &Point) -> Option<(String, String)> {
@@ -113,9 +115,9 @@ fn run_point(ctx: &mut Ctx, p: &Point) -> Option<(String, String)> {
     let aos: Vec<&OsStr> = args.iter().map(|a| a.as_os_str()).collect();
     let mut env = env_for(p.env);
     env.push(("VREC_MODE".into(), "count".into()));
-    let o = binrun::run(&binrun::repo_bin("xargs"), &aos, &sbx, &binrun::Opts { env, stack: Some(p.stack.1), timeout_s: 600, ..Default::default() });
+    let o = binrun::run(&binrun::repo_bin("xargs"), &aos, &sbx, &binrun::Opts { env, stack: Some(p.stack.1), stack_soft_only: p.soft_only, timeout_s: 600, ..Default::default() });
     let _ = std::fs::remove_file(&input);
-    let tag = format!("stack {} env {} args {} opt {}", p.stack.0, p.env, p.len, p.opt);
+    let tag = format!("stack {}{} env {} args {} opt {}", p.stack.0, if p.soft_only { " (soft limit only)" } else { "" }, p.env, p.len, p.opt);
     let err = String::from_utf8_lossy(&o.err).to_string();
     let detail = |what: String| format!("{what}\nxargs {:?} over {nargs} NUL-terminated arguments ({tag}{})\nexit {:?} signal {:?} timed out {}; stderr {:?}", args.iter().skip(3).take(6).map(|a| { let s = a.to_string_lossy(); if s.len() > 40 { format!("{}…({} bytes)", &s[..12], s.len()) } else { s.to_string() } }).collect::<Vec<_>>(), p.big.map(|b| format!(", one argument of {} bytes at #{}", b.1, b.0)).unwrap_or_default(), o.code, o.signal, o.timed_out, err.chars().take(300).collect::<String>());
     if o.timed_out || o.signal.is_some() || o.code == Some(101) {
@@ -253,13 +255,24 @@ fn grid(t: Tier) -> Vec<(usize, usize, usize, usize)> {
 
 fn run(ctx: &mut Ctx) {
     let mut job = 0u64;
+    // the soft stack limit alone lowered (ulimit -S -s): the kernel's budget follows the soft limit
+    for (s, e, l, o) in [(0usize, 1usize, 0usize, 0usize), (0, 2, 4, 0), (1, 1, 0, 1)] {
+        job += 1;
+        if !ctx.mine(job) {
+            continue;
+        }
+        let p = Point { stack: STACKS[s], env: ENVS[e], len: LENS[l], opt: OPTS[o], big: None, nargs_override: None, soft_only: true };
+        if let Some((sig, detail)) = run_point(ctx, &p) {
+            ctx.rep.violation(&sig, detail, json!({"prop":"C06","stack":s,"env":e,"len":l,"opt":o,"soft_only":true}));
+        }
+    }
     for (s, e, l, o) in grid(ctx.tier) {
         job += 1;
         if !ctx.mine(job) {
             continue;
         }
         ctx.progress(job);
-        let p = Point { stack: STACKS[s], env: ENVS[e], len: LENS[l], opt: OPTS[o], big: None, nargs_override: None };
+        let p = Point { stack: STACKS[s], env: ENVS[e], len: LENS[l], opt: OPTS[o], big: None, nargs_override: None, soft_only: false };
         ctx.progress_note(&format!("{} {} {} {}", p.stack.0, p.env, p.len, p.opt));
         if let Some((sig, detail)) = run_point(ctx, &p) {
             ctx.rep.violation(&sig, detail, json!({"prop":"C06","stack":s,"env":e,"len":l,"opt":o}));
@@ -296,7 +309,7 @@ fn run(ctx: &mut Ctx) {
                 ctx.progress(job);
                 // without and with a user limit above every budget (-s must not lift the per-string cap)
                 for (oi, opt) in [(0usize, "none"), (2, "-s-huge")] {
-                    let p = Point { stack: STACKS[s], env: ENVS[0], len: "7", opt, big: Some((pos, big)), nargs_override: Some(12) };
+                    let p = Point { stack: STACKS[s], env: ENVS[0], len: "7", opt, big: Some((pos, big)), nargs_override: Some(12), soft_only: false };
                     if let Some((sig, detail)) = run_point(ctx, &p) {
                         ctx.rep.violation(&sig, detail, json!({"prop":"C06","stack":s,"env":0,"len":2,"opt":oi,"big":[pos,big]}));
                     }
@@ -375,7 +388,7 @@ fn replay(case: &Value, ctx: &mut Ctx) -> Option<String> {
         };
     }
     let big = case["big"].as_array().map(|a| (a[0].as_u64().unwrap_or(0) as usize, a[1].as_u64().unwrap_or(0) as usize));
-    let p = Point { stack: STACKS[g("stack")?], env: ENVS[g("env")?], len: LENS[g("len")?], opt: OPTS[g("opt")?], big, nargs_override: big.map(|_| 12) };
+    let p = Point { stack: STACKS[g("stack")?], env: ENVS[g("env")?], len: LENS[g("len")?], opt: OPTS[g("opt")?], big, nargs_override: big.map(|_| 12), soft_only: case["soft_only"].as_bool().unwrap_or(false) };
     match run_point(ctx, &p) {
         Some((sig, detail)) => {
             ctx.rep.violation(&sig, detail, case.clone());
